@@ -462,7 +462,8 @@ fn prop(c: &Case) -> Verdict {
                 "find-below-file-is-error"
             } else if rule == 6 {
                 "find-remote-head-packed"
-            } else if looks_full(&q) && rule >= 2 {
+            } else if rule >= 2 && (looks_full(&q) || q == b"refs" || q == b"main-worktree" || q == b"worktrees") {
+                // mirrors Coq's known_fullname_fallback: the name, or its join with /HEAD, looks like a full name
                 "find-fullname-fallback"
             } else {
                 "find-mismatch"
